@@ -21,7 +21,11 @@ Arguments checkRaftConfiguration error_T fmt_Errorf net_SplitHostPort strings_Co
 Definition gserver (s : server) : raft_Server :=
   mk_raft_Server (if sv_voter s then 0%Z else 1%Z) (sv_id s) (sv_addr s).
 Definition gconf (l : list server) : raft_Configuration := mk_raft_Configuration (map gserver l).
-Definition set_of (l : list string) : alist bool := map (fun x => (x, true)) l.
+(* the "seen" sets: a map[...]bool holding true, or a map[...]struct{} *)
+Class SetVal (V : Type) := setval : V.
+#[export] Instance setval_bool : SetVal bool := true.
+#[export] Instance setval_unit : SetVal unit := tt.
+Definition set_of {V : Type} `{SetVal V} (l : list string) : alist V := map (fun x => (x, setval)) l.
 
 Lemma lookup_set_of : forall l x, odef false (lookup (set_of l) x) = mem_str x l.
 Proof.
@@ -29,11 +33,14 @@ Proof.
   rewrite (String.eqb_sym x y). destruct (String.eqb y x); cbn; [reflexivity|apply IH].
 Qed.
 
-Lemma lookup_set_of_ok : forall l x, isSome (lookup (set_of l) x) = mem_str x l.
+Lemma lookup_set_of_ok : forall (V : Type) (H : SetVal V) l x, isSome (lookup (set_of l) x) = mem_str x l.
 Proof.
   induction l as [|y l IH]; intros x; cbn; [reflexivity|].
   rewrite (String.eqb_sym x y). destruct (String.eqb y x); cbn; [reflexivity|apply IH].
 Qed.
+
+Lemma update_set_of : forall (V : Type) (H : SetVal V) l k, update (set_of l) k setval = set_of (k :: l).
+Proof. reflexivity. Qed.
 
 Section Check.
   Variable E : Type.
@@ -56,8 +63,7 @@ Section Check.
     - destruct voters; reflexivity.
     - cbn [gserver raft_Server_ID raft_Server_Address raft_Server_Suffrage].
       unfold contains, split at 1. rewrite ?lookup_set_of, ?lookup_set_of_ok.
-      change (update (set_of ids) (sv_id s) true) with (set_of (sv_id s :: ids)).
-      change (update (set_of addrs) (sv_addr s) true) with (set_of (sv_addr s :: addrs)).
+      rewrite ?update_set_of.
       unfold raft_Voter.
       clearbody LOOP.
       destruct (sv_voter s); cbn [Z.eqb];
